@@ -80,4 +80,147 @@ SimpleLoop(h, w, blocked, pivot, A) ==
         others == {c \in 0 .. h * w - 1 : c # pivot /\ blocked[c + 1] = 0}
     IN  /\ \A c \in 0 .. h * w - 1 : c # pivot => ((c \in vis) <=> (blocked[c + 1] = 0))
         /\ (pivot \in vis) <=> (Cardinality(others) % 2 = 1)
+
+(* ------------------------------------------------------------------ cell-colouring puzzles *)
+Cells(h, w) == 0 .. h * w - 1
+RowOf(w, c) == c \div w
+ColOf(w, c) == c % w
+GG(h, w) == TLCEval(GridGraph(h, w))
+Orth(h, w, c) == {d \in Cells(h, w) : (RowOf(w, d) = RowOf(w, c) /\ (ColOf(w, d) = ColOf(w, c) + 1 \/ ColOf(w, c) = ColOf(w, d) + 1))
+                                      \/ (ColOf(w, d) = ColOf(w, c) /\ (RowOf(w, d) = RowOf(w, c) + 1 \/ RowOf(w, c) = RowOf(w, d) + 1))}
+Touch8(h, w, c) == {d \in Cells(h, w) \ {c} : RowOf(w, d) - RowOf(w, c) \in -1 .. 1 /\ ColOf(w, d) - ColOf(w, c) \in -1 .. 1}
+(* connectivity of cell sets by coordinate arithmetic (much cheaper for TLC than scanning an edge list) *)
+OrthAdj(w, c, d) == (d = c + 1 /\ c % w # w - 1) \/ (c = d + 1 /\ d % w # w - 1) \/ d = c + w \/ c = d + w
+RECURSIVE ReachCells(_, _, _)
+ReachCells(w, S, R) == LET Nx == {d \in S \ R : \E c \in R : OrthAdj(w, c, d)} IN IF Nx = {} THEN R ELSE ReachCells(w, S, R \cup Nx)
+ConnCells(h, w, S) == S = {} \/ ReachCells(w, S, {CHOOSE c \in S : TRUE}) = S
+CompOf(h, w, S, c) == ReachCells(w, S, {c})
+Squares(h, w) == {{Cell(w, y, x), Cell(w, y, x + 1), Cell(w, y + 1, x), Cell(w, y + 1, x + 1)} : y \in 0 .. h - 2, x \in 0 .. w - 2}
+No2x2(h, w, S) == \A Q \in Squares(h, w) : ~(Q \subseteq S)
+RoomsOfRgs(r) == {{c \in 0 .. Len(r) - 1 : r[c + 1] = b} : b \in {r[i] : i \in DOMAIN r}}
+RoomAt(r, c) == {d \in 0 .. Len(r) - 1 : r[d + 1] = r[c + 1]}
+
+(* nurikabe: 0 none, n >= 1 island size, -1 island of unknown size.  W = white (island) cells *)
+Nurikabe(h, w, p, W) ==
+    LET clues == {c \in Cells(h, w) : p[c + 1] # 0}
+        sea == Cells(h, w) \ W
+    IN  /\ clues \subseteq W
+        /\ \A c \in W : Cardinality(CompOf(h, w, W, c) \cap clues) = 1
+        /\ \A c \in clues : p[c + 1] > 0 => Cardinality(CompOf(h, w, W, c)) = p[c + 1]
+        /\ ConnCells(h, w, sea)
+        /\ No2x2(h, w, sea)
+
+(* norinori: every room holds two black cells, every black cell has exactly one black neighbour *)
+Norinori(h, w, rgs, B) ==
+    /\ \A R \in RoomsOfRgs(rgs) : Cardinality(R \cap B) = 2
+    /\ \A c \in B : Cardinality(Orth(h, w, c) \cap B) = 1
+
+(* akari: -2 empty, -1 block, 0..4 numbered block.  L = cells with a light *)
+AkariSees(h, w, p, c, d) ==
+    \/ (RowOf(w, c) = RowOf(w, d) /\ \A e \in Cells(h, w) :
+            (RowOf(w, e) = RowOf(w, c) /\ ((ColOf(w, c) < ColOf(w, e) /\ ColOf(w, e) < ColOf(w, d)) \/ (ColOf(w, d) < ColOf(w, e) /\ ColOf(w, e) < ColOf(w, c)))) => p[e + 1] = -2)
+    \/ (ColOf(w, c) = ColOf(w, d) /\ \A e \in Cells(h, w) :
+            (ColOf(w, e) = ColOf(w, c) /\ ((RowOf(w, c) < RowOf(w, e) /\ RowOf(w, e) < RowOf(w, d)) \/ (RowOf(w, d) < RowOf(w, e) /\ RowOf(w, e) < RowOf(w, c)))) => p[e + 1] = -2)
+Akari(h, w, p, L) ==
+    LET empty == {c \in Cells(h, w) : p[c + 1] = -2} IN
+    /\ L \subseteq empty
+    /\ \A c \in empty : c \in L \/ \E l \in L : AkariSees(h, w, p, c, l)
+    /\ \A l1, l2 \in L : l1 # l2 => ~AkariSees(h, w, p, l1, l2)
+    /\ \A c \in Cells(h, w) : p[c + 1] >= 0 => Cardinality(Orth(h, w, c) \cap L) = p[c + 1]
+
+(* star battle: n x n, block ids, k stars per row, column and block, no two stars touching (diagonally either) *)
+StarBattle(n, k, ids, S) ==
+    /\ \A i \in 0 .. n - 1 : Cardinality({c \in S : RowOf(n, c) = i}) = k /\ Cardinality({c \in S : ColOf(n, c) = i}) = k
+    /\ \A i \in 0 .. n - 1 : Cardinality({c \in S : ids[c + 1] = i}) = k
+    /\ \A c \in S : Touch8(n, n, c) \cap S = {}
+
+(* yin-yang: 0 none, 1 white, 2 black.  B = black cells *)
+YinYang(h, w, p, B) ==
+    LET Wt == Cells(h, w) \ B IN
+    /\ \A c \in Cells(h, w) : (p[c + 1] = 1 => c \in Wt) /\ (p[c + 1] = 2 => c \in B)
+    /\ ConnCells(h, w, B) /\ ConnCells(h, w, Wt)
+    /\ No2x2(h, w, B) /\ No2x2(h, w, Wt)
+
+(* creek: clues on the (h+1) x (w+1) lattice points, -1 none; number = black cells around the point.  W = white cells *)
+Creek(h, w, p, W) ==
+    /\ ConnCells(h, w, W)
+    /\ \A y \in 0 .. h, x \in 0 .. w :
+          p[y * (w + 1) + x + 1] >= 0 =>
+             Cardinality({c \in Cells(h, w) \ W : RowOf(w, c) \in {y - 1, y} /\ ColOf(w, c) \in {x - 1, x}}) = p[y * (w + 1) + x + 1]
+
+(* heyawake: rooms (rgs) with clues (< 0 none), B black *)
+LineCells(w, c, d) ==      \* the cells from c to d in one row or column (c before d)
+    IF RowOf(w, c) = RowOf(w, d) THEN {Cell(w, RowOf(w, c), x) : x \in ColOf(w, c) .. ColOf(w, d)}
+    ELSE {Cell(w, y, ColOf(w, c)) : y \in RowOf(w, c) .. RowOf(w, d)}
+Crossings(w, rgs, c, d) ==
+    IF RowOf(w, c) = RowOf(w, d)
+    THEN Cardinality({x \in ColOf(w, c) .. ColOf(w, d) - 1 : rgs[Cell(w, RowOf(w, c), x) + 1] # rgs[Cell(w, RowOf(w, c), x + 1) + 1]})
+    ELSE Cardinality({y \in RowOf(w, c) .. RowOf(w, d) - 1 : rgs[Cell(w, y, ColOf(w, c)) + 1] # rgs[Cell(w, y + 1, ColOf(w, c)) + 1]})
+Heyawake(h, w, rgs, clues, B) ==
+    LET Wt == Cells(h, w) \ B IN
+    /\ NotAdj(GG(h, w), B)
+    /\ ConnCells(h, w, Wt)
+    /\ \A k \in {rgs[i] : i \in DOMAIN rgs} : clues[k + 1] >= 0 => Cardinality({c \in B : rgs[c + 1] = k}) = clues[k + 1]
+    /\ \A c, d \in Cells(h, w) :
+          (c < d /\ (RowOf(w, c) = RowOf(w, d) \/ ColOf(w, c) = ColOf(w, d)) /\ LineCells(w, c, d) \subseteq Wt)
+             => Crossings(w, rgs, c, d) < 2
+
+(* LITS: one tetromino per room, no 2x2, all black connected, equal shapes never edge-adjacent *)
+Shape(h, w, T) ==       \* T: four orthogonally connected cells
+    IF T \in Squares(h, w) THEN "O"
+    ELSE IF Cardinality({RowOf(w, c) : c \in T}) = 1 \/ Cardinality({ColOf(w, c) : c \in T}) = 1 THEN "I"
+    ELSE IF \E c \in T : Cardinality(Orth(h, w, c) \cap T) = 3 THEN "T"
+    ELSE IF \E c \in T : \E a, b \in Orth(h, w, c) \cap T : a # b /\ (RowOf(w, a) = RowOf(w, b) \/ ColOf(w, a) = ColOf(w, b)) THEN "L"
+    ELSE "S"
+Lits(h, w, rgs, B) ==
+    LET rooms == RoomsOfRgs(rgs) IN
+    /\ \A R \in rooms : Cardinality(R \cap B) = 4 /\ ConnCells(h, w, R \cap B)
+    /\ No2x2(h, w, B)
+    /\ ConnCells(h, w, B)
+    /\ \A R1, R2 \in rooms :
+          (R1 # R2 /\ \E a \in R1 \cap B, b \in R2 \cap B : b \in Orth(h, w, a))
+             => Shape(h, w, R1 \cap B) # Shape(h, w, R2 \cap B)
+
+(* nurimisaki: -1 none, 0 cape, n >= 2 cape whose straight run of white cells (itself included) has length n *)
+RunFrom(h, w, W, c, dy, dx) ==     \* white cells in a straight line from c in direction (dy, dx), c included
+    LET RECURSIVE Go(_, _)
+        Go(y, x) == IF InBoard(h, w, y, x) /\ Cell(w, y, x) \in W THEN 1 + Go(y + dy, x + dx) ELSE 0
+    IN Go(RowOf(w, c), ColOf(w, c))
+Nurimisaki(h, w, p, W) ==
+    /\ ConnCells(h, w, W)
+    /\ No2x2(h, w, W) /\ No2x2(h, w, Cells(h, w) \ W)
+    /\ \A c \in Cells(h, w) :
+          IF p[c + 1] = -1 THEN (c \in W => Cardinality(Orth(h, w, c) \cap W) # 1)
+          ELSE /\ c \in W /\ Cardinality(Orth(h, w, c) \cap W) = 1
+               /\ p[c + 1] > 0 =>
+                     \E dir \in {<<-1, 0>>, <<1, 0>>, <<0, -1>>, <<0, 1>>} :
+                        /\ InBoard(h, w, RowOf(w, c) + dir[1], ColOf(w, c) + dir[2])
+                        /\ Cell(w, RowOf(w, c) + dir[1], ColOf(w, c) + dir[2]) \in W
+                        /\ RunFrom(h, w, W, c, dir[1], dir[2]) = p[c + 1]
+
+(* putteria: one numbered cell per room (the number is the room's size); numbered cells are not adjacent; *)
+(* equal numbers never share a row or a column                                                          *)
+Putteria(h, w, rgs, S) ==
+    /\ \A R \in RoomsOfRgs(rgs) : Cardinality(R \cap S) = 1
+    /\ NotAdj(GG(h, w), S)
+    /\ \A c, d \in S : (c # d /\ (RowOf(w, c) = RowOf(w, d) \/ ColOf(w, c) = ColOf(w, d)))
+                          => Cardinality(RoomAt(rgs, c)) # Cardinality(RoomAt(rgs, d))
+
+(* aquarium: row / column counts (< 0 none); in every tank the water has one level across the whole tank *)
+Aquarium(h, w, rgs, row, col, S) ==
+    /\ \A y \in 0 .. h - 1 : row[y + 1] >= 0 => Cardinality({c \in S : RowOf(w, c) = y}) = row[y + 1]
+    /\ \A x \in 0 .. w - 1 : col[x + 1] >= 0 => Cardinality({c \in S : ColOf(w, c) = x}) = col[x + 1]
+    /\ \A R \in RoomsOfRgs(rgs) : \E level \in 0 .. h : R \cap S = {c \in R : RowOf(w, c) >= level}
+
+(* gokigen: one diagonal per cell; T = cells with a backslash; point clues count the diagonals touching the point; no cycle *)
+GokigenGraph(h, w, T) ==
+    [n |-> (h + 1) * (w + 1),
+     edges |-> [c \in 1 .. h * w |->
+                  LET y == (c - 1) \div w  x == (c - 1) % w IN
+                  IF c - 1 \in T THEN <<y * (w + 1) + x, (y + 1) * (w + 1) + x + 1>>
+                  ELSE <<y * (w + 1) + x + 1, (y + 1) * (w + 1) + x>>]]
+Gokigen(h, w, p, T) ==
+    LET g == GokigenGraph(h, w, T) IN
+    /\ Forest(g, E(g))
+    /\ \A pt \in 0 .. (h + 1) * (w + 1) - 1 : p[pt + 1] >= 0 => Deg(g, E(g), pt) = p[pt + 1]
 =============================================================================
